@@ -527,13 +527,26 @@ pub fn check_history(
             continue;
         }
         let deferred = &run.deferred[s.pred];
+        let traced = |n: usize| -> bool {
+            case.predicates[s.pred]
+                .nodes
+                .get(n)
+                .map(|nd| case.programs[nd.prog].first() == Some(&crate::model::ops::MOp::PUSH(TRACE)))
+                .unwrap_or(false)
+        };
         for node in 0..a.parents.len() {
+            if !traced(node) {
+                continue; // programs without the trace read are not observable
+            }
             let me = seen.get(&(si, node as u16)).map(|v| v[0]);
             if ok {
                 ensure!(me.is_some(), "graph:not-executed", "solution {si} node {node} was never executed although the check succeeded");
             }
             if let Some(t) = me {
                 for p in &a.parents[node] {
+                    if !traced(*p as usize) {
+                        continue;
+                    }
                     match seen.get(&(si, *p)).map(|v| v[0]) {
                         Some(tp) => ensure!(
                             tp < t,
